@@ -270,6 +270,17 @@ fn model_bbs(em: &mut Emitter, rng: &mut Rng) {
         let mut r6 = rvl.clone();
         r6.push((n + 7, rng.scalar()));
         vars.push(("index-out-of-range", r6, c, abar, bbar, t, resp.clone(), x));
+        // a hidden message additionally "revealed" with a fake value, listed out of order, its response shifted by -c·fake
+        if let (Some(&hi), Some(&(ri, _))) = (hid.first(), rvl.last()) {
+            if hi < ri {
+                let fake = rng.scalar();
+                let mut r7 = rvl.clone();
+                r7.push((hi, fake));
+                let mut p7 = resp.clone();
+                p7[0] -= c * fake;
+                vars.push(("unsorted-fake-reveal", r7, c, abar, bbar, t, p7, x));
+            }
+        }
         vars.push(("other-challenge", rvl.clone(), c + Scalar::ONE, abar, bbar, t, resp.clone(), x));
         vars.push(("abar-identity", rvl.clone(), c, Scalar::ZERO, bbar, t, resp.clone(), x));
         vars.push(("bbar-identity", rvl.clone(), c, abar, Scalar::ZERO, t, resp.clone(), x));
@@ -298,8 +309,8 @@ fn model_bbs(em: &mut Emitter, rng: &mut Rng) {
             if real.is_ok() && !legit {
                 em.violation(&format!("pok-accepts:{}", label), format!("bbs: hand-made proof variant '{}' accepted", label), json!({"pk": pkv, "rvl": rvl_s(&r), "c": sc_hex(&c), "proof": pv}));
             }
-            if !real.is_ok() && label == "honest" {
-                em.violation("handmade-pok-rejected", "bbs: hand-made honest proof rejected", json!({"pk": pkv, "rvl": rvl_s(&r), "c": sc_hex(&c), "proof": pv}));
+            if !real.is_ok() && legit {
+                em.violation(&format!("handmade-pok-rejected:{}", label), format!("bbs: hand-made honest proof rejected with its true revealed messages ({})", label), json!({"pk": pkv, "rvl": rvl_s(&r), "c": sc_hex(&c), "proof": pv}));
             }
             if let Out::Panic(m) = &real {
                 em.violation(&format!("pok-panic:{}", label), format!("bbs: verify panicked on variant '{}': {}", label, m), json!({"pk": pkv, "rvl": rvl_s(&r), "proof": pv}));
